@@ -116,7 +116,8 @@ class C19(core.Prop):
             out.append({'t': 'decoder', 'source': self._enc(rng, True)})
         for _ in range(n // 20):
             nrows = rng.randint(1, 4)
-            fields = [['A', 'i'], ['B', 's'], ['C', 'i']][: rng.randint(1, 3)]
+            # varying names over repeating column types: decoders must not remember the names of an earlier table
+            fields = [[n, rng.choice(['i', 'i', 's'])] for n in rng.sample(['A', 'B', 'C', 'x', 'y', 'label', 'z9'], rng.randint(1, 3))]
             rows = [[rng.randint(-5, 99) if k == 'i' else rng.choice(['a', 'b', 'xy', 'z w']) for _, k in fields] for _ in range(nrows)]
             accept, declare = rng.choice(ROUNDTRIP_PAIRS)
             out.append({'t': 'roundtrip', 'fields': fields, 'rows': rows, 'accept': accept, 'declare': declare})
